@@ -15,6 +15,8 @@ package main
 // Helios frames, panics.
 
 import (
+	"github.com/0xReLogic/Helios/internal/config"
+	"net/http"
 	"errors"
 	"fmt"
 	"net"
@@ -52,7 +54,7 @@ func runCompRace(x *X) {
 	x.Nontrivial = true
 	simrt.FreeYieldOnUnlock.Store(c.Intn(2, "yield-on-unlock") == 1)
 	defer simrt.FreeYieldOnUnlock.Store(false)
-	which := []string{"breaker", "breaker", "limiter", "wspool", "metrics"}[c.Intn(5, "component")]
+	which := []string{"breaker", "breaker", "limiter", "wspool", "metrics", "balancer"}[c.Intn(6, "component")]
 	nG := 4 + c.Intn(9, "goroutines")
 	nOps := 40 + c.Intn(160, "ops")
 	x.Sample["config"] = fmt.Sprintf("component=%s goroutines=%d ops=%d (schedule: Go runtime, not seed-decided)", which, nG, nOps)
@@ -177,6 +179,57 @@ func runCompRace(x *X) {
 		wg.Wait()
 		pool.Shutdown()
 		x.Probe("wspool-hammered")
+	case "balancer":
+		// the balancer's membership, strategy and health state under picks, listings, adds, removes,
+		// strategy switches and ejections from many goroutines (no request is proxied: picks only)
+		cfg := &config.Config{}
+		cfg.Server.Port = 8080
+		cfg.Logging.Level = "fatal"
+		cfg.LoadBalancer.Strategy = strategies[c.Intn(5, "strategy")]
+		cfg.HealthChecks.Passive = config.PassiveHealthCheckConfig{Enabled: true, UnhealthyThreshold: 1, UnhealthyTimeout: 1}
+		for i := 0; i < 3; i++ {
+			cfg.Backends = append(cfg.Backends, config.BackendConfig{Name: fmt.Sprintf("b%d", i), Address: fmt.Sprintf("http://10.30.0.%d:80", i+1), Weight: 1 + i})
+		}
+		lb, err := loadbalancer.NewLoadBalancer(cfg)
+		if err != nil {
+			panic(err)
+		}
+		for g := 0; g < nG; g++ {
+			run(g, func(g, i, op int) {
+				switch {
+				case op < 4:
+					r, _ := http.NewRequest("GET", "http://helios.test/", nil)
+					r.RemoteAddr = fmt.Sprintf("198.51.100.%d:4000", 1+(g+i)%50)
+					if b := lb.NextBackend(r); b != nil && op == 0 {
+						lb.IsBackendHealthy(b)
+					}
+				case op < 8:
+					for _, bi := range lb.ListBackends() {
+						_ = bi.Healthy
+					}
+				case op < 10:
+					name := fmt.Sprintf("dyn%d", (g+i)%2)
+					if op == 8 {
+						lb.AddBackend(config.BackendConfig{Name: name, Address: fmt.Sprintf("http://10.30.1.%d:80", 1+(g+i)%2), Weight: 1 + i%3})
+					} else {
+						lb.RemoveBackend(name)
+					}
+				case op < 11:
+					lb.SetStrategy(strategies[(g+i)%5])
+				case op < 13:
+					r, _ := http.NewRequest("GET", "http://helios.test/", nil)
+					r.RemoteAddr = "198.51.100.77:4000"
+					if b := lb.NextBackend(r); b != nil {
+						lb.MarkBackendUnhealthy(b, time.Duration(1+op)*time.Millisecond)
+					}
+				default:
+					time.Sleep(time.Duration(1+op%3) * time.Millisecond)
+				}
+			})
+		}
+		wg.Wait()
+		lb.Stop()
+		x.Probe("balancer-hammered")
 	case "metrics":
 		mc := metrics.NewMetricsCollector()
 		names := []string{"b0", "b1", "b2"}
